@@ -22,6 +22,11 @@ pub const FOREIGN: &[&str] = &[
     "<math><a/><![CDATA[<a>]]><mtext><a>x</a></mtext></math>",
     "<select><a></select><textarea><a></textarea><a>",
     "<template><a><!--c--></a></template><a><!--d--></a>",
+    // nested roots of the same kind, followed by content whose reading depends on the namespace
+    "<div><svg><svg id=i><a/></svg><style>s<a>x</a></style><a/></svg><a>y</a></div>",
+    "<math><math><mi>x</mi></math><![CDATA[<a>]]><a/><mi><a>t</a></mi></math><a>",
+    "<svg><svg></svg><a/><title><a></title><![CDATA[<a>]]></svg><a>",
+    "<svg><g><svg><g></g></svg></g><a/><desc><a>x</a></desc></svg>",
 ];
 
 fn subject_menu() -> Vec<(&'static str, Vec<HSpec>)> {
@@ -35,6 +40,9 @@ fn subject_menu() -> Vec<(&'static str, Vec<HSpec>)> {
         ("mark-el(a)", vec![mark(HKind::Element, "a", "m")]),
         ("mark-comments(a)", vec![mark(HKind::Comments, "a", "c")]),
         ("text(script),text(textarea)", vec![HSpec::obs(HKind::Text, "script"), HSpec::obs(HKind::Text, "textarea")]),
+        // handlers that need the END tag of a foreign root (the scanner hands it to the lexer)
+        ("endtag(svg),endtag(math),el(a)", vec![HSpec::obs_end_tag("svg"), HSpec::obs_end_tag("math"), HSpec::obs(HKind::Element, "a")]),
+        ("mark-after(svg),mark-after(math),el(a)", vec![HSpec::with_ops(HKind::Element, "svg", vec![Op::After("\x01s\x02".into(), true)]), HSpec::with_ops(HKind::Element, "math", vec![Op::Append("\x01m\x02".into(), true)]), HSpec::obs(HKind::Element, "a")]),
     ]
 }
 
@@ -204,18 +212,20 @@ pub fn run_check(ctx: &Ctx) -> i32 {
         let full = build_pairs(&subjects, &all_masks, &[true]);
         let few = build_pairs(&subjects, &few_masks, &[true, false]);
         let two = build_pairs(&subjects, &[0b001000, 0b111111], &[true]);
-        sweep(ctx, "F<=2 x 8 subjects x all 63 observer subsets x L0,L1", Space::Frags { k, max: 2 }, &full, l1);
-        foreign(&full, l1, "12 foreign-content documents x all pairs x L0,L1");
-        sweep(ctx, "Fcore<=3 x 8 subjects x 7 observer subsets x strict{t,f} x L0,LB", Space::Frags { k: F_CORE, max: 3 }, &few, l0);
-        sweep(ctx, "F<=3 x 8 subjects x 2 observer subsets x L0", Space::Frags { k, max: 3 }, &two, Levels { l1: false, l2_max_len: 0, bytewise: false, empties: false });
+        sweep(ctx, "F<=2 x 10 subjects x all 63 observer subsets x L0,L1", Space::Frags { k, max: 2 }, &full, l1);
+        foreign(&full, l1, "16 foreign-content documents x all pairs x L0,L1");
+        sweep(ctx, "Fcore<=3 x 10 subjects x 7 observer subsets x strict{t,f} x L0,LB", Space::Frags { k: F_CORE, max: 3 }, &few, l0);
+        sweep(ctx, "F<=3 x 10 subjects x 2 observer subsets x L0", Space::Frags { k, max: 3 }, &two, Levels { l1: false, l2_max_len: 0, bytewise: false, empties: false });
+        sweep(ctx, "7 foreign contexts x 55 foreign tag fragments<=2 x 10 subjects x 2 observer subsets x L0,L1", Space::Foreign { max: 2 }, &two, l1);
     } else {
         let full = build_pairs(&subjects, &all_masks, &[true, false]);
         let few = build_pairs(&subjects, &few_masks, &[true, false]);
         sweep(ctx, "F<=2 x all pairs x L0,L1,LB", Space::Frags { k, max: 2 }, &full, Levels { l1: true, l2_max_len: 0, bytewise: true, empties: false });
-        foreign(&full, Levels { l1: true, l2_max_len: 64, bytewise: true, empties: true }, "12 foreign-content documents x all pairs x L0,L1,L2,LB,LE");
-        sweep(ctx, "F<=3 x 8 subjects x 7 observer subsets x strict{t,f} x L0,L1", Space::Frags { k, max: 3 }, &few, l1);
-        sweep(ctx, "Fcore<=4 x 8 subjects x 7 observer subsets x L0,LB", Space::Frags { k: F_CORE, max: 4 }, &few, l0);
-        sweep(ctx, "B16<=5 x 8 subjects x 7 observer subsets x L0,L1", Space::Bytes { max: 5 }, &few, l1);
+        foreign(&full, Levels { l1: true, l2_max_len: 64, bytewise: true, empties: true }, "16 foreign-content documents x all pairs x L0,L1,L2,LB,LE");
+        sweep(ctx, "F<=3 x 10 subjects x 7 observer subsets x strict{t,f} x L0,L1", Space::Frags { k, max: 3 }, &few, l1);
+        sweep(ctx, "Fcore<=4 x 10 subjects x 7 observer subsets x L0,LB", Space::Frags { k: F_CORE, max: 4 }, &few, l0);
+        sweep(ctx, "B16<=5 x 10 subjects x 7 observer subsets x L0,L1", Space::Bytes { max: 5 }, &few, l1);
+        sweep(ctx, "7 foreign contexts x 55 foreign tag fragments<=2 x 10 subjects x 7 observer subsets x strict{t,f} x L0,L1", Space::Foreign { max: 2 }, &few, l1);
     }
     ctx.finish(
         "model_checking",
